@@ -84,7 +84,7 @@ CHECKS = {
     'C18': dict(text='Drawing geometry (rows, pivots, widths, figure width, labels, rejection) proved of the model; plot ≡ one listing on '
                      'the heap (frame theorem, partial for settledness); real plot_circuit descriptions/transforms compared with the '
                      'model; side-effect clause by before/after and twin runs under foreign ambient durations. reorder_indices (row order) is proved equal to its SOURCE TEXT.', ref='DESIGN.md §4 C18'),
-    'C19': dict(text='Channel matching, edge/qubit identity and hash, unique_in_order (33 theorems, full strength, about the definitions '
+    'C19': dict(text='Channel matching, edge/qubit identity and hash, unique_in_order incl. its laws over concatenations and filters (37 theorems, full strength, about the definitions '
                      'the heap model uses); ChannelIdentifier.__eq__, EdgeIDObj.contains/__eq__ and unique_in_order (the loop over a growing set) proved equal to their SOURCE TEXT; exhaustive correspondence over 12² / 12³ channel identifiers, 17² qubits, 48² edges.',
                 ref='DESIGN.md §4 C19'),
 }
